@@ -489,7 +489,27 @@ def step (d : DState) (tok : List String) : DState × List String :=
         match s.inst with
         | none => (d, ["skipped: no completed update"])
         | some inst =>
-          match (lookupVptr s.cfg s.pub (nats.headD 0)).bind (slotVptr inst) with
+          -- in --src mode the index comes from the bodies of hash_type_id translated from the header
+          let viaSrc : Option (Except CallErr VSlot) :=
+            if d.src && !s.cfg.vptrMap && s.cfg.hash != .none then
+              let id := UInt64.ofNat (nats.headD 0)
+              let slotAt := fun (i : Nat) => match s.pub.vec[i]? with
+                | some sl => Except.ok sl
+                | none => Except.error (CallErr.fault "vptrs index out of range")
+              if s.cfg.hash == .checked then
+                match HashL.run s.pub.hash s.pub.control Generated.HashSrc.fast Generated.HashSrc.checked id with
+                | .returned i => some (slotAt i.toNat)
+                | .reported x => some (.error (.unknownClass x.toNat))
+                | .aborted => some (.error (.fault "abort"))
+                | .normal _ => some (.error (.fault "fell off the end of hash_type_id"))
+                | .fault w => some (.error (.fault w))
+              else
+                match HashL.evalE { st := s.pub.hash, control := s.pub.control, fast := Generated.HashSrc.fast, param := id } [] 2
+                    Generated.HashSrc.fast with
+                | .ok i => some (slotAt i.toNat)
+                | .error w => some (.error (.fault w))
+            else none
+          match (viaSrc.getD (lookupVptr s.cfg s.pub (nats.headD 0))).bind (slotVptr inst) with
           | .ok v => (d, [s!"vptr {v}"])
           | .error (.fault w) => (d, [s!"fault {w}"])
           | .error e => if d.handlerReturns then ({ d with dead := true }, ["!signal 6"]) else (d, [fmtCallErr e])
